@@ -29,6 +29,11 @@ func valueEdges(c *Ctx, v ssa.Value, cond DNF) []ValEdge {
 		rv, rc := c.resolve(v)
 		switch x := rv.(type) {
 		case *ssa.Phi:
+			if rc.condBusy {
+				// the phi belongs to a function whose conditions are being computed right now: leave it opaque
+				out = append(out, ValEdge{rv, rc, cond})
+				return
+			}
 			if seen[x] {
 				return
 			}
@@ -95,7 +100,7 @@ func valueEdges(c *Ctx, v ssa.Value, cond DNF) []ValEdge {
 
 func expandCall(c *Ctx, call *ssa.Call, idx int, cond DNF, depth int, rec func(*Ctx, ssa.Value, DNF, int)) bool {
 	k := c.calleeCtx(call, &call.Call)
-	if k == nil {
+	if k == nil || c.E.NoExpand[k.Fn] {
 		return false
 	}
 	conds, err := k.conds()
